@@ -1,1 +1,8 @@
 // vocabulary shared by the VM arm contracts
+
+/// a slice operand: none = absent, an integer = that integer, undefined or anything else = error
+pub open spec fn operand_spec(v: Value) -> Result<Option<i128>, ()> {
+    if v.none_spec() { Ok(None) }
+    else if v.undefined_spec() { Err(()) }
+    else { match v.i128_spec() { Some(n) => Ok(Some(n)), None => Err(()) } }
+}
